@@ -72,6 +72,15 @@ def value(node, ctx, depth=0):
                 raise P.NoEval("verify_map refuses the character")
             return r[1]
         return v
+    if t == "verify" and node.get("vmap"):
+        # verify_map: the value is what the function yields inside Some; where it yields None the parser fails
+        v = value(node["p"], ctx, depth + 1)
+        r = pr.apply(ctx.fn(node["f"]), [v])
+        if isinstance(r, tuple) and len(r) == 2 and r[0] == "some":
+            return r[1]
+        if isinstance(r, P.Opq):
+            return P.Opq("%r?" % r, ("mcall", "unwrap", r, []))
+        raise P.NoEval("verify_map refuses the value")
     if t in ("ctx", "cut", "peek", "verify"):
         return value(node["p"], ctx, depth + 1)
     if t == "seq":
